@@ -21,9 +21,10 @@ RUST_KEYWORDS = ['as', 'break', 'const', 'continue', 'crate', 'else', 'enum', 'e
 
 def run(ctx):
     rep = Report('C14')
-    configs = [('single-file', dict())]
+    # ignore_unused(true) is the Builder's default, so it belongs to the quick tier: only what the reachability pass finds is emitted
+    configs = [('single-file', dict()), ('ignore-unused', dict(ignore_unused=True))]
     if ctx['tier'] == 'thorough':
-        configs += [('split', dict(split=True)), ('no-change-case', dict(change_case=False)), ('ignore-unused', dict(ignore_unused=True))]
+        configs += [('split', dict(split=True)), ('no-change-case', dict(change_case=False))]
     for label, kw in configs:
         d = harness_facts(**kw)
         man = os.path.join(d, 'gen', 'manifest.txt')
